@@ -2345,6 +2345,14 @@ func (l *Lowerer) evalConstantFloatExpr(expr parser.Expr) (float64, error) {
 			} else if len(text) > 0 && (text[len(text)-1] == 'u' || text[len(text)-1] == 'i') {
 				text = text[:len(text)-1]
 			}
+			if len(text) > 2 && text[0] == '0' && (text[1] == 'x' || text[1] == 'X') {
+				// Hexadecimal integer literal (0x10): not a ParseFloat spelling.
+				u, err := strconv.ParseUint(text[2:], 16, 64)
+				if err != nil {
+					return 0, fmt.Errorf("invalid int literal as float: %s", e.Value)
+				}
+				return float64(u), nil
+			}
 			v, err := strconv.ParseFloat(text, 64)
 			if err != nil {
 				return 0, fmt.Errorf("invalid int literal as float: %s", e.Value)
